@@ -341,6 +341,11 @@ pub fn run_plan(plan: &Plan, verbose: bool) -> Report {
 pub static LOAD_DONE_HOOK: std::sync::OnceLock<fn(u64)> = std::sync::OnceLock::new();
 
 fn run_plan_here(plan: &Plan, verbose: bool) -> Report {
+    // history first: earlier runs on this thread whose only purpose is the state they may leave
+    for h in &plan.prelude {
+        stage("history");
+        let _ = run_plan_here(h, false);
+    }
     let image = plan.image();
     match plan.mode.as_str() {
         "load" | "use" => run_load_use(plan, &image, verbose),
